@@ -34,6 +34,8 @@ class AsmRun:
         self.name = None
         self.listing = None
         self.prog = None
+        self.shared_writes = []
+        self.heap_writes = 0
 
     def __repr__(self):
         if self.status == "ok":
@@ -56,6 +58,13 @@ def _assemble_sym(env, lines, want_listing, fs, bytes_of=None):
     r = AsmRun()
     Program = it.get("cocoasm.program", "Program")
     it.fs = dict(fs or {})
+    from .frames import FrameMonitor
+    lines = list(lines)
+    it.get("cocoasm.program", "Program")
+    mon = FrameMonitor(it, inputs=[lines])
+    old_wh = it.write_hook
+    it.write_hook = mon.hook
+    lines_before = list(lines)
     it.steps = 0
     it.step_limit = STEP_LIMIT
     old_unroll = it.unroll_limit
@@ -64,7 +73,7 @@ def _assemble_sym(env, lines, want_listing, fs, bytes_of=None):
     try:
         prog = it.call(Program, [], {})
         try:
-            it.call(it.getattr_(prog, "process"), [list(lines)], {})
+            it.call(it.getattr_(prog, "process"), [lines], {})
             r.status = "ok"
         except PyRaise as pr:
             r.exc_class = pr.exc.cls.name
@@ -123,6 +132,14 @@ def _assemble_sym(env, lines, want_listing, fs, bytes_of=None):
     finally:
         it.step_limit = None
         it.unroll_limit = old_unroll
+        it.write_hook = old_wh
+        r.shared_writes = sorted(set(mon.violations))
+        r.heap_writes = mon.writes
+        same = len(lines) == len(lines_before) and all(a is b for a, b in zip(lines, lines_before))
+        # C17 frame obligations of this run (no native counterpart: CPython cannot observe write targets)
+        env.ensure("C17:frame:no-write-to-shared-or-input-objects", not r.shared_writes, ("C17",),
+                   internal="frame:" + "; ".join(r.shared_writes)[:300])
+        env.ensure("C17:input-lines-unmodified", same, ("C17",), internal="frame:input list modified")
 
 
 class _Alarm(Exception):
@@ -157,10 +174,12 @@ def _assemble_native(env, lines, want_listing, fs, bytes_of=None):
         os.chdir(tmpd)
     old = signal.signal(signal.SIGALRM, _on_alarm)
     signal.setitimer(signal.ITIMER_REAL, 3.0)
+    lines = list(lines)
+    lines_before = list(lines)
     try:
         prog = P.Program()
         try:
-            prog.process(list(lines))
+            prog.process(lines)
             r.status = "ok"
         except _Alarm:
             r.status = "hang"
@@ -214,6 +233,8 @@ def _assemble_native(env, lines, want_listing, fs, bytes_of=None):
     finally:
         signal.setitimer(signal.ITIMER_REAL, 0)
         signal.signal(signal.SIGALRM, old)
+        env.ensure("C17:frame:no-write-to-shared-or-input-objects", True, ("C17",))
+        env.ensure("C17:input-lines-unmodified", lines == lines_before, ("C17",), lambda: "input lines modified")
         if tmpd:
             os.chdir(cwd)
             import shutil
